@@ -1216,10 +1216,14 @@ where
         if safe.active_blob.is_none() {
             Err(Error::active_blob_doesnt_exist().into())
         } else {
+            // Sync while the blob is still attached to the storage: if the sync fails (or this future
+            // is dropped while waiting for it) the blob with all its records must stay reachable
+            if let Some(ablob) = safe.active_blob.as_ref() {
+                ablob.read().await.fsyncdata().await?;
+            }
             // always true
             if let Some(ablob) = safe.active_blob.take() {
                 let ablob = (*ablob).into_inner();
-                ablob.fsyncdata().await?;
                 safe.blobs.write().await.push(ablob).await;
             }
             Ok(())
